@@ -751,10 +751,19 @@ impl RustGenerator<'_> {
         let ident = format!("r#{name}");
         let ty = self.type_name(newtype_def.target_type());
         let schema_name = self.schema.name();
-        let additional_derives =
-            RustAttributes::parse(newtype_def.attributes()).additional_derives();
         let (is_key_type, derive_default) =
             self.newtype_properties(self.schema, newtype_def.target_type());
+
+        // Newtypes of key types derive the comparison and hashing traits unconditionally.
+        let mut attrs = RustAttributes::parse(newtype_def.attributes());
+        if is_key_type {
+            attrs.impl_partial_eq = false;
+            attrs.impl_eq = false;
+            attrs.impl_partial_ord = false;
+            attrs.impl_ord = false;
+            attrs.impl_hash = false;
+        }
+        let additional_derives = attrs.additional_derives();
 
         let (doc_comment, doc_alt) = self.doc_string(newtype_def.doc(), 0);
         code!(self, "{doc_comment}");
